@@ -35,10 +35,34 @@ Definition stable (ops : list (Z * Z)) : bool :=
 Definition run_inp (x : inp) : list bool :=
   if no_evict x && stable (in_ops x) then run_ops (in_cfg x) empty_state (in_ops x)
   else run_lru (in_cfg x) {| l_acc := []; l_pr := []; l_acap := in_acap x; l_pcap := in_pcap x |} (in_ops x).
+(* second input shape (several overlapping rules, unbounded dictionaries):
+     [VZ (-7); VL [[period stay threshold cond_matches cmd] ...] (global rules); VL [...] (product rules); VL [[key time] ...]]
+   output: VL [[return code; AllChecked increment; AllPrison increment] per request] *)
+Definition dec_mrule (v : val) : option mrule :=
+  match v with
+  | VL [VZ p; VZ s; VZ th; VZ m; VZ cmd] =>
+    Some {| m_cfg := {| c_period := p; c_stay := s; c_threshold := th |}; m_match := negb (m =? 0); m_cmd := cmd |}
+  | _ => None
+  end.
+Record minp := { mi_g : list mrule; mi_p : list mrule; mi_ops : list (Z * Z) }.
+Definition dec_multi (v : val) : option minp :=
+  match v with
+  | VL [VZ (-7); VL g; VL p; VL ops] =>
+    match all_some (map dec_mrule g), all_some (map dec_mrule p), all_some (map dec_op ops) with
+    | Some g', Some p', Some ops' => Some {| mi_g := g'; mi_p := p'; mi_ops := ops' |}
+    | _, _, _ => None
+    end
+  | _ => None
+  end.
+Definition enc_multi (l : list (Z * Z * Z)) : val :=
+  VL (map (fun o => match o with (ret, c, p) => VL [VZ ret; VZ c; VZ p] end) l).
+Definition with_state {S} (s0 : S) (rs : list mrule) : list (mrule * S) := map (fun r => (r, s0)) rs.
+Definition run_minp (x : minp) : list (Z * Z * Z) :=
+  run_multi state record_and_check (with_state empty_state (mi_g x)) (with_state empty_state (mi_p x)) (mi_ops x).
 Definition run_C53 (v : val) : val :=
   match dec_C53 v with
   | Some x => VL (map vbool (run_inp x))
-  | None => VErr 0
+  | None => match dec_multi v with Some x => enc_multi (run_minp x) | None => VErr 0 end
   end.
 Definition agree_C53 (i o : val) : bool := val_eqb (run_C53 i) o.
 
@@ -101,12 +125,20 @@ Fixpoint all_justified (c : cfg) (past : list (Z * Z)) (ops : list (Z * Z)) (ds 
     (if d then (0 <=? k) && denial_justified c sofar k t else true) && all_justified c sofar r ds'
   | _, _ => false
   end.
+(* several rules: every matching rule judges the request by its own reference automaton (spec_step), in order, and a
+   rule that admits never hides the request from the later rules *)
+Definition spec_rac (c : cfg) (m : Z -> kstate) (k t : Z) : (Z -> kstate) * bool :=
+  if k <? 0 then (m, false)
+  else let '(s', d) := spec_step c (m k) t in (fun k' => if k' =? k then s' else m k', d).
+Definition spec_minp (x : minp) : list (Z * Z * Z) :=
+  run_multi (Z -> kstate) spec_rac (with_state (fun _ => k0) (mi_g x)) (with_state (fun _ => k0) (mi_p x)) (mi_ops x).
 Definition prop_C53 (i o : val) : bool :=
   match dec_C53 i, bools_of o with
   | Some x, Some ds =>
     if negb (stable (in_ops x)) then true     (* rule parameters change on reload: correspondence with run_lru only *)
     else if no_evict x then list_bool_eqb (spec_run (in_cfg x) (fun _ => k0) (in_ops x)) ds
     else all_justified (in_cfg x) [] (in_ops x) ds
-  | _, _ => false
+  | Some _, None => false
+  | None, _ => match dec_multi i with Some x => val_eqb (enc_multi (spec_minp x)) o | None => false end
   end.
 Definition kf_C53 (i : val) : Z := 0.
